@@ -5,7 +5,7 @@ CONFIG = dict(
         rule='scripts over 1-5 real rbtree.Allocators, each shared by up to 12 real RBTrees and two "raw" owners that call malloc/free '
              'directly: Insert / DeleteWithKey / Erase / CloneDeep (same or other allocator) / Allocator.Clone + CloneShallow of every tree, '
              'HibernationThreshold 0, size-1, size, size+1, Hibernate / Boot in memory and through Serialize / Deserialize on disk '
-             '(unwritable path, missing file, directory instead of file, truncation at every section boundary +-1 and at random offsets), '
+             '(unwritable path, missing file, directory instead of file, truncation at every section boundary +-1 and at random offsets; round 3: at EVERY length 0 .. size-1 for all files of the boundary family, one in 16 files of up to 600 bytes of the random family and every file of up to 8 KB of the scale family, which got six small arenas with gaps of 12 .. 1200 cells for it), '
              'Hibernate twice, every use while hibernated, Used/Size.  After every operation every allocator of the world is re-observed '
              '(storage cells, gap set, hibernation fields, ids reachable from every tree root); the compressed buffers and the file bytes '
              'are recorded.  Streams: exhaustive = every sequence of <= 4 (thorough: 5) operations over a 12-letter alphabet of '
